@@ -227,6 +227,17 @@ theorem h2_goaway_rule (code : Int) (id last : Nat) (h : id ≤ last) :
   ⟨dataDiscarded_inflight true _ id last (fun _ => rfl) h, headersIgnored_inflight true _ id last (fun _ => rfl) h,
    dataDiscarded_inflight false code id last (fun h => Bool.noConfusion h) h, fun h' => by omega⟩
 
+/-- **refused_stream_harmless**: a stream the client begins after the GOAWAY (its id is above the last stream id; the
+client may not have seen the GOAWAY yet) cannot disturb the connection: its HEADERS, DATA and RST_STREAM frames are
+dropped without any effect — no connection error, so the requests in flight survive it. -/
+theorem refused_stream_harmless (c : H2GoAway.Conn) (j n : Nat) (es : Bool) (d : Option Nat)
+    (hg : c.inGoAway = true) (hj : c.maxId < j) :
+    H2GoAway.step c (.headers j es d) = (c, []) ∧ H2GoAway.step c (.data j n es) = (c, []) ∧
+    H2GoAway.step c (.rst j) = (c, []) :=
+  ⟨refused_stream_step c _ j hg hj (Or.inr (Or.inl ⟨es, d, rfl⟩)),
+   refused_stream_step c _ j hg hj (Or.inr (Or.inr (Or.inl ⟨n, es, rfl⟩))),
+   refused_stream_step c _ j hg hj (Or.inr (Or.inr (Or.inr rfl)))⟩
+
 -- non-vacuity / the mutator's description "goaway between data frames": HEADERS, DATA(100), GoAway(), DATA(200, END_STREAM)
 example : (H2GoAway.run H2GoAway.Conn.initial [.headers 1 false (some 300), .data 1 100 false, .shutdown, .data 1 200 true]).2 =
     [Out.goAway 1 0, Out.deliver 1 300] := by decide
